@@ -53,9 +53,13 @@ type RunResult struct {
 	SchedSig   string      `json:"schedsig"` // hash of the switch sequence
 	TraceSig   string      `json:"tracesig"` // hash of all decisions + outcomes: replay must reproduce it
 	WallMs     int64       `json:"wall_ms"`
+	SimMs      int64       `json:"sim_ms"`
 	Probes     map[string]int `json:"probes,omitempty"`
 	Harness    string      `json:"harness_error,omitempty"`
 }
+
+// checkForeign is set when the instrumenter saw `go` statements in repository code.
+var checkForeign bool
 
 type rng struct{ s uint64 }
 
@@ -151,7 +155,10 @@ func genPolicy(r *rng, nOps int, multi bool) simrt.Policy {
 func genC10(c *Corpus, pl pools, seed uint64, tier string) *RunSpec {
 	r := &rng{seed}
 	sp := &RunSpec{Mode: "c10", Seed: seed}
-	nTasks := 2 + r.intn(5)
+	nTasks := 2 + r.intn(3)
+	if r.chance(15) {
+		nTasks = 5 + r.intn(2)
+	}
 	nProf := 1 + r.intn(3)
 	pool := pl.small
 	if len(pl.gen) > 0 && r.chance(35) {
@@ -170,7 +177,10 @@ func genC10(c *Corpus, pl pools, seed uint64, tier string) *RunSpec {
 	nOps := 0
 	for t := 0; t < nTasks; t++ {
 		var ops []Op
-		n := 1 + r.intn(3)
+		n := 1 + r.intn(2)
+		if r.chance(15) {
+			n = 3
+		}
 		private := -1
 		privateP := 0
 		for i := 0; i < n; i++ {
@@ -366,6 +376,7 @@ func execRun(c *Corpus, rc *refCache, sp *RunSpec, replay *Decisions) *RunResult
 		simrt.NowHook = nil
 	}
 	s := simrt.NewSched(n, sp.Seed^0x5bd1e995, sp.Pol)
+	s.CheckForeign = checkForeign
 	if replay != nil {
 		s.SetReplay(replay.Switches, replay.Maps)
 		s.Pol.FailPlan = replay.Fails
@@ -383,7 +394,9 @@ func execRun(c *Corpus, rc *refCache, sp *RunSpec, replay *Decisions) *RunResult
 			}
 		}
 	}
+	ts := time.Now()
 	s.Run(tasks)
+	res.SimMs = time.Since(ts).Milliseconds()
 	res.Stats = s.St
 	res.Dec = &Decisions{Switches: s.Trace, Maps: s.MapTrace, Fails: s.FailTrace}
 	res.Spec = sp
